@@ -98,6 +98,9 @@ type Property struct {
 	HangNotViolation bool
 	Workers          int
 	CaseTimeout      time.Duration
+	// RaceSample: in addition to the ordinary (uninstrumented) workers, every 127th case is run
+	// again in a race-built worker process and its race reports count as violations.
+	RaceSample bool
 	// Jitter: every third case of this property runs with the seeded scheduling jitter of
 	// the verif hooks switched on (completion order != input order at the stage boundaries).
 	Jitter bool
@@ -474,9 +477,47 @@ func RunMain(id, tier string) int {
 			}
 		}(s)
 	}
+	// the race sampler: a 1/127 sample of the same cases under the race detector
+	raceSampled := false
+	if p.RaceSample && !p.Race {
+		if rb := os.Getenv("VERIF_VCHECK_RACE"); rb != "" {
+			if _, err := os.Stat(rb); err == nil {
+				raceSampled = true
+				wg.Add(1)
+				go func() {
+					defer wg.Done()
+					journal := filepath.Join(runDir, "journal.race")
+					cmd := exec.Command(rb, "worker", id, tier, strconv.FormatUint(seed, 10), "0", "127", "0", journal)
+					ef, _ := os.Create(filepath.Join(runDir, "stderr.race"))
+					cmd.Stderr = ef
+					cmd.Stdout = ef
+					cmd.Env = append(os.Environ(), "GORACE=halt_on_error=0 atexit_sleep_ms=0 log_path="+filepath.Join(runDir, "race"))
+					err := cmd.Run()
+					ef.Close()
+					tmp := &Agg{Prop: p, Tier: tier, Seed: seed, Sigs: map[string]bool{}, Counters: map[string]int{}, Sets: map[string]map[string]bool{}}
+					var tmu sync.Mutex
+					last, complete, hang := readJournal(journal, tmp, &tmu)
+					mu.Lock()
+					defer mu.Unlock()
+					agg.Counters["race_sample_cases"] += tmp.CasesRun
+					for _, v := range tmp.Viol {
+						agg.Viol = append(agg.Viol, v)
+					}
+					if !complete || err != nil {
+						if hang != "" {
+							agg.Inconclusive = append(agg.Inconclusive, fmt.Sprintf("race sample: watchdog fired on case %d (%s)", last, strings.SplitN(hang, " ", 2)[0]))
+						} else if last >= 0 {
+							errText := tailFile(filepath.Join(runDir, "stderr.race"), 6000)
+							agg.AddViolation(last, Violation{Class: "crash(race-built worker)", Msg: "race-built worker process died while running this case: " + firstPanicLine(errText), Files: map[string]string{"stderr.txt": errText}})
+						}
+					}
+				}()
+			}
+		}
+	}
 	wg.Wait()
 
-	if p.Race {
+	if p.Race || raceSampled {
 		blocks := scanRaceLogs(runDir)
 		agg.RaceBlocks = len(blocks)
 		seen := map[string]string{}
